@@ -124,6 +124,7 @@ type Real struct {
 	DrainErr      error
 	DrainState    string
 	DrainConsumed int
+	Again         string // what was wrong with further Reads after ErrDataTooLarge ("" = nothing)
 }
 
 // RunReal drives the real dataReader over data delivered in segments segs
@@ -146,6 +147,16 @@ func RunReal(data []byte, segs []int, rb int, bud int) Real {
 	r.State = stateNames[dr.State()]
 	r.Consumed = src.pos - br.Buffered()
 	if r.Err == smtp.ErrDataTooLarge {
+		// a backend that reads on is handed nothing more, and never an end-of-file
+		for k := 0; k < 3; k++ {
+			n, err := dr.Read(buf)
+			// (each further Read probes the stream again, so the error may change
+			// when the stream runs out; what matters is that no octet is handed over)
+			if n != 0 || err == nil {
+				r.Again = fmt.Sprintf("Read number %d after ErrDataTooLarge returned %d octets and %v", k+2, n, err)
+				break
+			}
+		}
 		dr.Unlimit()
 		for iter := 0; iter < len(data)+10; iter++ {
 			if _, err := dr.Read(buf); err != nil {
@@ -170,6 +181,9 @@ func Compare(t Table, data []byte, segs []int, rb, bud int) string {
 	case exp.Fail:
 		if got.Err != smtp.ErrDataTooLarge {
 			return fmt.Sprintf("result: spec too-large, reader %v", got.Err)
+		}
+		if got.Again != "" {
+			return "limit: " + got.Again
 		}
 		// the drain ends at the same end marker as without a limit
 		if exp.State == "EOF" {
